@@ -92,6 +92,14 @@ def build(job):
         eng.expect(tuple(a.pair) == (p, i), "Reference.pair is not (prefix, identifier)")
         named = api.NamedReference.from_reference(c)
         eng.expect(named == c and sym_eq(named.name, n2), "NamedReference.from_reference loses the pair or the name")
+        # objects derived from ones that have already been printed / compared (pydantic's model_copy with an update)
+        for obj in (a, b, c):
+            obj.curie, obj.pair
+            der = obj.model_copy(update={"identifier": i2 if obj is a else i})
+            want_i = i2 if obj is a else i
+            eng.check_holds(_s(der.curie) == z3.Concat(_s(der.prefix), z3.StringVal(":"), _s(want_i)),
+                            "a reference derived with model_copy(update=...) does not print as its own prefix:identifier")
+            eng.expect(tuple(der.pair) == (der.prefix, want_i), "a reference derived with model_copy(update=...) has a stale pair")
         # equality / hash depend only on the pair
         eng.expect(b == c and c == b and b == d and not (b != c), "a name matters for equality")
         eng.check_holds(And(H(b) == H(c), H(b) == H(d)), "a name matters for hashing")
